@@ -3,7 +3,9 @@ package drivers
 
 import (
 	_ "verif/mc/drivers/c04"
+	_ "verif/mc/drivers/c05"
 	_ "verif/mc/drivers/c11"
 	_ "verif/mc/drivers/c14"
+	_ "verif/mc/drivers/c15"
 	_ "verif/mc/drivers/c19"
 )
